@@ -18,7 +18,7 @@ PROP = dict(
         "process exit is emulated in-process: Close of every manager + store (clean) or a byte copy of db/-wal/-shm taken between operations (abrupt); OS-level durability is assumed",
         "quiescence: no RPC is in flight at the restart (no open budget, no uncommitted ContractUpdater)",
     ],
-    level_text="Lean theorems over the persisted/memory split of each manager: for every reachable state of the sector-root cache model (adds, revisions, v1/v2 renewals of any length) the roots served for every non-superseded contract are the same after rebuild (restart_observe_roots, by an invariant); quiescent account manager, settings and pinned settings likewise; for webhooks the theorem holds for a constructor that loads the table and is refuted for one that does not (restart_observe_hooks / restart_hooks_lost; the current tree's constructor fact is `loads = false`); at row level the rebuilt root lists keep elements AND order for any physical row order as long as the query orders by root_index (restart_observe_roots_ordered, with an ORDER BY sector_id counterexample); every settings / pinned-settings FIELD is restart-stable when the upsert updates every inserted column, a missing column loses exactly that field, and the transcribed column lists are complete (restart_observe_fields, restart_field_lost, upsert_columns_complete); volumes are served available iff their file opens (restart_observe_volumes); the indexer tip (restart_observe_index); restart never changes the persisted part and the constructors write nothing but SetAvailable (open_is_readonly). Tied to the code by restarting the real managers on real databases after generated histories.",
+    level_text="Lean theorems over the persisted/memory split of each manager: for every reachable state of the sector-root cache model (adds, revisions, v1/v2 renewals of any length) the roots served for every non-superseded contract are the same after rebuild (restart_observe_roots, by an invariant); quiescent account manager, settings and pinned settings likewise; for webhooks the theorem holds for a constructor that loads the table and is refuted for one that does not (restart_observe_hooks / restart_hooks_lost; the current tree's constructor fact is `loads = false`); at row level the rebuilt root lists keep elements AND order for any physical row order as long as the query orders by root_index (restart_observe_roots_ordered, with an ORDER BY sector_id counterexample); every settings / pinned-settings FIELD is restart-stable when the upsert updates every inserted column, a missing column loses exactly that field, and the transcribed column lists are complete (restart_observe_fields, restart_field_lost, upsert_columns_complete); volumes are served available iff their file opens — at EVERY restart of any sequence of lost/restored data files and restarts — and a write succeeds iff such a volume has room (restart_observe_volumes, volumes_available_at_every_restart, write_iff_file_and_room; the driver evaluates exactly this rule on the persisted rows, VolumeManager.Volumes()/Volume(id) and a write probe after each restart of the volume histories, in which data files are renamed away and back around restarts); the indexer tip (restart_observe_index); restart never changes the persisted part and the constructors write nothing but SetAvailable (open_is_readonly). Tied to the code by restarting the real managers on real databases after generated histories.",
     level_note="trusted: Lean kernel (+propext, Quot.sound), transcription of the constructors, harness canonicalisation; partial: real process exit / OS behaviour; schema migrations are exercised only as 'version = target: opening writes nothing' (upgrade paths are covered by the repository's own migration tests)",
     assumptions=["root lists are compared for non-superseded contracts only (DESIGN §6.5); stale predecessor entries are counted (`stale=`) but not flagged",
                  "sector access counters (reads, writes, cache hits/misses) are flushed by the recorder at Close and are excluded from the metrics comparison",
